@@ -13,7 +13,25 @@ CLAIMS = {
  'C05': ('full', "Lean 4 proof (16 theorems) for every hash function (home-slot function), every power-of-two size and flag combination: probing invariant W1-W4 holds in every reachable state; under it get/contains/len/put/remove/rehash/iterate/iterator/clear act exactly like a dictionary with exact destructor and key alloc/free events; key ledger over whole histories. Tie A: default size, probe length, load rule, back-shift decision and string hash regenerated from map.c, side conditions closed in C05_fragments_good. Tie B: map_harness vs model incl. iteration order, adversarial key sets (shared home slot, wrapping clusters, growth).", '§7 C05'),
 }
 CLAIMS['C06'] = ('partial', "Lean 4 proof (11 theorems, none _partial) about a labelled transition system with one program counter per pthread primitive / shared access of thpool.c (after the three fix commits), for every interleaving of any number of submitters, workers (eager, LAZY, DETACHED) and the freeing thread incl. spurious wake-ups and pthread_create failures: at-most-once execution with the own argument, bounded parallelism, mutual exclusion, free(wait_all)/free(!wait_all) return conditions, discarded tasks never run, no touch after free, no deadlock. Partial: the tie to the C code is trace acceptance on sampled schedules under a deterministic scheduler shim (2008 quick / 28008 thorough, every plain access of the pool object is a scheduling point) plus TSan real-thread runs; liveness beyond deadlock freedom is not proved; POSIX primitives are encoded, not verified.", '§7 C06')
-PENDING = 'check not built yet in this round; not claimed until its theorems and correspondence exist (DESIGN.md §7)'
+
+CORE_TIE = (" Tie B: core_harness (the real ctx.c/mod.c/ps.c/evts.c/src.c/epoll plugin + containers, clang-14 ASan+UBSan) and the compiled Lean model run the same"
+            " random programs with nested callback bodies; every output line (return codes, INVOKE lines with events, frees, closes, states, counters) is diffed and an independent oracle of the property runs over the implementation's trace."
+            " Partial: the model is hand-written (no regenerated fragment for the core), agreement is established on explored scripts only; kernel readiness order is recorded, not predicted.")
+CLAIMS['C01'] = ('partial', "Lean 4 proof (9 theorems) over the core machine (library functions as programs with a callback effect; a rely/guarantee logic lifts per-API triples to every line sequence, i.e. every callback program, nesting depth and return value): running counter = number of RUNNING modules in every reachable configuration incl. mid-callback; a module out of its context's table is STOPPED or ZOMBIE; refused start/pause/resume/stop change nothing; ZOMBIE refuses everything; pause runs no callback. Callback pairing counts are checked by the oracle on traces, not yet as a trace theorem." + CORE_TIE, '§7 C01')
+CLAIMS['C02'] = ('partial', "Lean 4 proof (6 theorems) about the sending side: a copy goes only to the addressed/eligible RUNNING|PAUSED module, exactly one copy appended with sender/topic/payload/system flag, nobody else touched; auto-free holder released exactly with the last reference, at once when nobody is eligible, never without the flag. End-to-end conservation (each copy delivered once or discarded for a stated reason) is checked by the oracle on explored histories, not proved." + CORE_TIE, '§7 C02')
+CLAIMS['C03'] = ('partial', "Lean 4 proof (7 theorems): a stale poll entry is skipped without effect; a one-shot source leaves the registry before its event is handed over; the event goes to the registering module; the loop body stops exactly on quit/no running module; quit records the code; dispatch is the loop unrolled (same three programs); the errno line touches only errno. Which sources become ready is the kernel's choice (recorded batches)." + CORE_TIE, '§7 C03')
+CLAIMS['C04'] = ('partial', "Lean 4 proof (6 theorems) about the ownership protocol the model carries (auto-free holder freed iff last reference, never twice, temporary references neutral, teardown paths only unref, module objects persist while handles may name them). Memory safety of the C statements is sampled: every correspondence script of every core property runs under ASan+UBSan and a sanitizer report is a FAULT line no model produces." + CORE_TIE, '§7 C04')
+CLAIMS['C07'] = ('partial', "Lean 4 proof (7 theorems): one context per thread (-EEXIST, no change); no context => every ctx call -EPIPE and module ops refused, no change; looping context refuses deregistration; finalized refuses registration; deregistration releases the context for every behaviour of the stop hooks; a fresh context can be registered afterwards; counter invariant across contexts." + CORE_TIE, '§7 C07')
+CLAIMS['C08'] = ('partial', "Lean 4 proof (3 theorems): consecutive sends to one module are appended to its mailbox in send order; the loop-stop flush hands over the prefix before a pill in mailbox order and nothing behind it; a pill is ordered like any message. The end-to-end order theorem over whole histories is checked by the oracle, not yet proved; pipe FIFO is the kernel's." + CORE_TIE, '§7 C08')
+CLAIMS['C09'] = ('partial', "Lean 4 proof (9 theorems): register of a present key -EEXIST without effect, new key registered, lookup finds it, removal takes exactly that one, absent key refused without effect, task deregistration -EPERM, parameter guards first, stop drops all, pause keeps all, src_len counts user sources. Comparators of src.c are exercised through the correspondence (timers, descriptors, subscriptions), not translated." + CORE_TIE, '§7 C09')
+CLAIMS['C13'] = ('partial', "Lean 4 proof (9 theorems): the push_evt decision table (handler runs iff HIGH, or batch timer with pending events, or NORM and queue length >= batch size; never for LOW alone), whole queue handed over in arrival order and emptied, default = immediate, stop resets batching, clearing the timeout restores the default." + CORE_TIE, '§7 C13')
+CLAIMS['C15'] = ('partial', "Lean 4 proof (9 theorems): names unique among the modules of a context in every reachable configuration; duplicate name refused unless ALLOW_REPLACE; DENY_PUB/DENY_SUB/DENY_CTX/PERSIST/reserved-topic refusals change nothing; the executing module is restored after nested callbacks (so DENY_CTX holds at every depth)." + CORE_TIE, '§7 C15')
+CLAIMS['C16'] = ('partial', "Lean 4 proof (6 theorems): unstash n hands the current handler exactly the oldest min(n,|stash|) events in stash order and removes them, returns that count; nothing stashed => 0 and no invocation; stash only RUNNING and non-HIGH; stash appends with original content; stop discards the stash." + CORE_TIE, '§7 C16')
+CLAIMS['C17'] = ('partial', "Lean 4 proof (7 theorems): an invocation uses the top of the become stack at invocation time, else the registration handler; become pushes, unbecome pops exactly the top, -EINVAL on empty; both refused unless RUNNING; stop empties the stack; a change inside a handler affects the next invocation only." + CORE_TIE, '§7 C17')
+CLAIMS['C18'] = ('partial', "Lean 4 proof (7 theorems): a token-consuming call takes exactly one token, is refused with -EAGAIN without effect when none is left; no bucket no limit; a refill tick adds one token capped at burst; successes in any history <= initial tokens + refill ticks (induction over arbitrary histories); rate 0 / stop remove the limit; configured bucket starts full with period floor(1e9/rate). Real-time spacing of refill ticks is the kernel timer's." + CORE_TIE, '§7 C18')
+CLAIMS['C19'] = ('partial', "Lean 4 proof (4 theorems): shape of every notification (system flag, no payload, topic, sender, never auto-freed); only RUNNING|PAUSED subscribers are sent one; user messages are never system-flagged; pause/resume notify like stop/start. One-notification-per-occurrence over whole histories is checked by the oracle, not proved." + CORE_TIE, '§7 C19')
+CLAIMS['C20'] = ('partial', "Lean 4 proof (10 theorems): removing a source closes its descriptor iff AUTOCLOSE; a removed source is neither registered nor polled nor in its owner's lists (cannot be closed again); stop/reset paths emit only payload frees, pipe ends and AUTOCLOSE closes; pause closes nothing; reset leaves no pipe. Kernel fd semantics assumed; the harness wraps pipe/close and compares the close log." + CORE_TIE, '§7 C20')
+PENDING = "C14 check (multi-context non-interference, static inventory, TSan) is under construction in this round; not claimed until its theorems and correspondence exist (DESIGN.md §7 C14)"
 
 
 def main():
